@@ -5,7 +5,8 @@
    The model's run loop contains no collector: a collection is unobservable (C03),
    so equality of the final MODEL states means equality of values, failures, output
    and global effects of the implementation.                                      *)
-From MW Require Import Model.Base Model.Datum Model.VmTypes Model.VmBase Model.Vm Proofs.RunProofs.
+From MW Require Import Model.Base Model.Datum Model.VmTypes Model.VmBase Model.Vm Model.Builtins
+  Proofs.RunProofs Proofs.RunProofs2.
 Open Scope N_scope.
 
 (* progress: a slice with a positive budget b hands control back (Yield) exactly
@@ -40,3 +41,79 @@ Print Assumptions C13_slices_equal_run.
 Theorem C13_run_never_yields : forall ob fuel cyc s s', run_loop ob fuel cyc None s <> ROk Yield s'.
 Proof. exact run_none_not_yield. Qed.
 Print Assumptions C13_run_never_yields.
+
+
+(* =================================================================================
+   End to end, at the level of Vm::eval / Vm::prepare_eval (proofs: Proofs/RunProofs2.v).
+   [eval_sliced ob bs c s]: prepare_eval c once (a compile error ends the evaluation at
+   once, exactly as in [eval]), then run_count b1, run_count b2, ... — each slice resumes the
+   machine the previous one handed back — until a slice returns a value or a failure.
+
+   The collector.  The Rust run_count calls run_gc when its PER-SLICE cycle counter reaches
+   a multiple of 8192, when a slice yields, fails or completes, and prepare_eval calls it
+   after a compile error (vm/run.rs:25-64, vm/mod.rs:107-122): a sliced run collects at
+   different moments than an uninterrupted one, so the RAW heaps of the implementation
+   (free list, addresses handed out later) may differ between the two.  The model's
+   [run_loop] contains no collector at all (Model/Vm.v; the collector is Model/Gc.v); that is
+   sound because a collection is unobservable (C03: it preserves every reachable cell and
+   only returns unreachable ones to the free list).  Equality of the final MODEL machines
+   below therefore means: same value / same failure (class, message, stack trace), same
+   globals, same output log, same registers, and the same reachable heap.
+   ================================================================================= *)
+Theorem C13_eval_sliced_unfold : forall ob bs c s,
+  eval_sliced ob bs c s =
+  match prepare_eval c s with
+  | ROk _ s' => run_slices ob bs s'
+  | RErr e m s' => ROk (Failed e m None) s'
+  | RPanic k => RPanic k
+  | RNoFuel => RNoFuel
+  end.
+Proof. reflexivity. Qed.
+Print Assumptions C13_eval_sliced_unfold.
+
+(* for every budget sequence bs, all positive, with enough total: the sliced evaluation
+   returns what Vm::eval returns — Done c / Failed e msg trace AND the final machine *)
+Theorem C13_eval_sliced_equals_eval : forall ob bs fuel c s r,
+  eval ob fuel c s = r -> r <> RNoFuel ->
+  Forall (fun b => 0 < b) bs -> N.of_nat fuel <= total bs ->
+  eval_sliced ob bs c s = r.
+Proof. exact eval_sliced_equals_eval. Qed.
+Print Assumptions C13_eval_sliced_equals_eval.
+
+(* the same with the twelve fields of the machine spelled out *)
+Theorem C13_eval_sliced_same_state : forall ob bs fuel c s out s1,
+  eval ob fuel c s = ROk out s1 ->
+  Forall (fun b => 0 < b) bs -> N.of_nat fuel <= total bs ->
+  exists s2, eval_sliced ob bs c s = ROk out s2 /\
+    hp s2 = hp s1 /\ st s2 = st s1 /\ g_bind s2 = g_bind s1 /\ g_slots s2 = g_slots s1 /\
+    stack s2 = stack s1 /\ scap s2 = scap s1 /\ sp s2 = sp s1 /\ bp s2 = bp s1 /\ ep s2 = ep s1 /\
+    ip s2 = ip s1 /\ acc s2 = acc s1 /\ out_log s2 = out_log s1.
+Proof. exact eval_sliced_same_state. Qed.
+Print Assumptions C13_eval_sliced_same_state.
+
+(* it always completes: the outcome is never "budget exhausted" *)
+Theorem C13_eval_sliced_completes : forall ob bs fuel c s out s1,
+  eval ob fuel c s = ROk out s1 ->
+  Forall (fun b => 0 < b) bs -> N.of_nat fuel <= total bs ->
+  out <> Yield /\ eval_sliced ob bs c s = ROk out s1.
+Proof. exact eval_sliced_completes. Qed.
+Print Assumptions C13_eval_sliced_completes.
+
+(* non-vacuity on vm_empty 8192, real builtin table, budgets 3 1 2 5 100:
+   ((lambda (a b) (if a b 'no)) #t '(1 2)) completes with (1 2), and
+   (if (define x '(#t)) (nosuch 1) 2) fails after one completed effect; in both cases the
+   hypotheses hold and the sliced evaluation computes the very result and machine of eval *)
+Example C13_example_sliced :
+  Forall (fun b => 0 < b) [3; 1; 2; 5; 100] /\ N.of_nat 100 <= total [3; 1; 2; 5; 100] /\
+  (exists c s1, eval other_builtin 100 rx_ok (vm_empty 8192) = ROk (Done c) s1 /\ write c = [40; 49; 32; 50; 41] /\
+     eval_sliced other_builtin [3; 1; 2; 5; 100] rx_ok (vm_empty 8192) = ROk (Done c) s1 /\
+     (* the first three slices really are interruptions *)
+     (exists y, run_count other_builtin 3 (Some 3) (rx_state (prepare_eval rx_ok (vm_empty 8192)) (vm_empty 8192)) = ROk Yield y)) /\
+  (exists e msg t s1, eval other_builtin 100 rx_fail (vm_empty 8192) = ROk (Failed e msg (Some t)) s1 /\
+     eval_sliced other_builtin [3; 1; 2; 5; 100] rx_fail (vm_empty 8192) = ROk (Failed e msg (Some t)) s1).
+Proof.
+  split; [repeat constructor|]. split; [vm_compute; discriminate|]. split.
+  - eexists. eexists. split; [vm_compute; reflexivity|]. split; [vm_compute; reflexivity|].
+    split; [vm_compute; reflexivity|]. eexists. vm_compute. reflexivity.
+  - eexists. eexists. eexists. eexists. split; vm_compute; reflexivity.
+Qed.
